@@ -30,6 +30,7 @@ class IntermediateCodeGen(AbstractCodeGen):
     """
     constImports = {
         'SNMPv2-SMI': ('iso',
+                       'Bits', 'Integer32', 'MibIdentifier',  # what the ASN.1 built-in types turn into
                        'NOTIFICATION-TYPE',  # bug in some MIBs (e.g. A3COM-HUAWEI-DHCPSNOOP-MIB)
                        'MODULE-IDENTITY', 'OBJECT-TYPE', 'OBJECT-IDENTITY'),
         'SNMPv2-TC': ('DisplayString', 'TEXTUAL-CONVENTION',),  # XXX
